@@ -53,8 +53,9 @@ impl Op {
     fn takes_len(self) -> bool {
         matches!(self, TryFromVec | TryFromBoxSlice | TryFromBoxedSliceB | TryFromVecB | TryBoxedFromIter | BoxFromIter)
     }
+    /// `cap` selects the Vec's spare capacity, or (for the iterator sources) the size-hint policy
     fn takes_cap(self) -> bool {
-        matches!(self, TryFromVec | TryFromVecB)
+        matches!(self, TryFromVec | TryFromVecB | TryBoxedFromIter | BoxFromIter)
     }
     /// closure / clone / source fault points exist
     fn has_calls(self) -> bool {
@@ -90,6 +91,8 @@ fn vec_of<E: Elem>(len: usize, cap_mode: u8) -> Vec<E> {
 
 struct Script<E: Elem> {
     remaining: usize,
+    /// 0: (0, None)   1: exact   2: bounded but loose (0, Some(2 rem + 1))
+    hint: u8,
     _p: core::marker::PhantomData<E>,
 }
 impl<E: Elem> Iterator for Script<E> {
@@ -101,6 +104,13 @@ impl<E: Elem> Iterator for Script<E> {
             Some(E::make())
         } else {
             None
+        }
+    }
+    fn size_hint(&self) -> (usize, Option<usize>) {
+        match self.hint {
+            0 => (0, None),
+            1 => (self.remaining, Some(self.remaining)),
+            _ => (0, Some(2 * self.remaining + 1)),
         }
     }
 }
@@ -309,7 +319,7 @@ fn run_case<N: ArrayLength, E: Elem + Default>(op: Op, l: usize, cap: u8, fault:
         }
         TryBoxedFromIter | BoxFromIter => {
             ledger::set_call_bomb(bomb);
-            let src = Script::<E> { remaining: l, _p: core::marker::PhantomData };
+            let src = Script::<E> { remaining: l, hint: cap, _p: core::marker::PhantomData };
             let r = if op == TryBoxedFromIter {
                 catch(|| rec::window(|| GA::<E, N>::try_boxed_from_iter(src))).map(|res| match res {
                     Ok(b) => {
